@@ -27,6 +27,7 @@ CONSTANTS
   CheckLeftoverOfAborted,     \* TRUE: check_task validates the leftover dependencies of a task without output (defect F2)
   EmitScenarios,              \* TRUE: print the scenario (program table + history) of every finished behaviour as JSON
   MidSession,                 \* TRUE: resources may also change while a session is open (between two API calls)
+  Retry,                      \* TRUE: a session in which a top-down build aborted is kept and may start further top-down builds
   Conform                     \* TRUE: used by PieConform.tla: programs and environment come from a recorded scenario, so the
                               \* restrictions that only shape the explored space (Permitted, bounds, reporting discipline) are lifted
 
@@ -178,7 +179,7 @@ AddAct(a) == IF hist # <<>> /\ Last(hist).s = "session"
 RootReq(t) ==
   \* (a caller that caught the panic of an aborted top-down build may keep the session: the session-local consistent
   \* set and error list survive, the executing-task marker is reset by Session::require)
-  /\ (ctl.mode = "sess" \/ (ctl.mode = "aborted" /\ Conform /\ ~ctl.inBU)) /\ ctl.stack = <<>>
+  /\ (ctl.mode = "sess" \/ (ctl.mode = "aborted" /\ (Conform \/ Retry) /\ ~ctl.inBU)) /\ ctl.stack = <<>>
   /\ Conform \/ (IF ctl.todo # <<>> THEN t = Head(ctl.todo) ELSE (m.probe = FALSE /\ ctl.roots < MaxRoots))
   /\ Emit(<<[ev |-> "root_call", t |-> t], Ev("build_start"), [ev |-> "require_start", t |-> t, c |-> "any"]>>, prog)
   /\ ctl' = [ctl EXCEPT !.stack = <<Frame("root", t), Frame("mc", t)>>, !.roots = @ + 1,
@@ -571,6 +572,10 @@ RanksRespectEdges ==
 Cut == /\ ctl.stack # <<>> /\ Top.k = "ex" /\ ~ctl.ret
        /\ LET key == <<Top.t, Top.pc, Top.acc>> IN key \in DOMAIN prog /\ ~Permitted(Top.t, Top.pc, Top.acc, prog[key])
 Progress == (ctl.stack # <<>> \/ ctl.mode = "busched") => (Cut \/ ENABLED Internal)
+
+\* vacuity witness, not an invariant: TLC must report it violated in a configuration with Retry = TRUE (a build is
+\* running in a session that already aborted); `lib/vlib.py` selftest-style use: run_mc(.., extra_inv="NoRetryWitness")
+NoRetryWitness == ~(ctl.mode = "aborted" /\ ctl.stack # <<>>)
 
 \* K-findings must be explained by the listed predicates only
 NoKF == kfs = {}
